@@ -1450,7 +1450,7 @@ impl Property for C20 {
         ]
     }
     fn cases(&self, tier: Tier) -> u64 {
-        tier.pick(10_000, 250_000)
+        tier.pick(60_000, 600_000)
     }
     fn exhaustive_note(&self, tier: Tier) -> Option<String> {
         Some(format!(
